@@ -220,7 +220,8 @@ def equivalent(a, b, max_exhaustive=1 << 16, samples=400, seed=20240229, domain=
 def env_str(env):
     if not env:
         return ""
-    return ", ".join("%s=%s" % (repr(k)[:60], hex(v) if isinstance(v, int) else v) for k, v in env.items())
+    items = list(env.items())[:8]
+    return ", ".join("%s=%s" % (repr(k)[:60], hex(v) if isinstance(v, int) and not isinstance(v, bool) else v) for k, v in items)
 
 
 # ---------------------------------------------------------------------------
@@ -433,13 +434,122 @@ def select_leaf(t, env):
     return t
 
 
+def _atom(t):
+    """(atom, polarity) for literals, else None"""
+    if isinstance(t, Op) and t.op == "not":
+        r = _atom(t.args[0])
+        return (r[0], not r[1]) if r else None
+    if isinstance(t, Op) and t.op in ("and", "or"):
+        return None
+    if isinstance(t, Ite):
+        return None
+    if isinstance(t, Const):
+        return None
+    if isinstance(t, Op) and t.op in ("ne", "notin", "isnot"):
+        pos = {"ne": "eq", "notin": "in", "isnot": "is"}[t.op]
+        return (Op(pos, *t.args), False)
+    return (t, True)
+
+
+def _peval(t, asg):
+    """partial evaluation of a propositional skeleton under a partial assignment of its atoms"""
+    if isinstance(t, Const):
+        return TRUE if t.v else FALSE
+    at = _atom(t)
+    if at is not None:
+        v = asg.get(at[0])
+        if v is None:
+            return t
+        return TRUE if v == at[1] else FALSE
+    if isinstance(t, Op) and t.op == "not":
+        return not_(_peval(t.args[0], asg))
+    if isinstance(t, Op) and t.op == "and":
+        return and_(*[_peval(a, asg) for a in t.args])
+    if isinstance(t, Op) and t.op == "or":
+        return or_(*[_peval(a, asg) for a in t.args])
+    if isinstance(t, Ite):
+        c = _peval(t.c, asg)
+        if c == TRUE:
+            return _peval(t.a, asg)
+        if c == FALSE:
+            return _peval(t.b, asg)
+        return ite(c, _peval(t.a, asg), _peval(t.b, asg))
+    return t
+
+
+def unsat(t, domain=None, budget=1 << 14):
+    """is the boolean term t unsatisfiable?  unit propagation first, then enumeration
+    of the remaining atoms (bounded).  Returns (bool, witness assignment or None)."""
+    asg = {}
+    cur = t
+    for _ in range(200):
+        cur = _peval(cur, asg)
+        if cur == FALSE:
+            return True, None
+        if cur == TRUE:
+            return False, dict(asg)
+        conj = cur.args if isinstance(cur, Op) and cur.op == "and" else [cur]
+        new = False
+        for c in conj:
+            at = _atom(c)
+            if at is not None and at[0] not in asg:
+                asg[at[0]] = at[1]
+                new = True
+        if not new:
+            break
+    # residual: split on atoms
+    atoms = []
+
+    def collect(x):
+        at = _atom(x)
+        if at is not None:
+            if at[0] not in atoms and at[0] not in asg:
+                atoms.append(at[0])
+            return
+        if isinstance(x, Op) and x.op in ("and", "or", "not"):
+            for a in x.args:
+                collect(a)
+        elif isinstance(x, Ite):
+            collect(x.c), collect(x.a), collect(x.b)
+    collect(cur)
+    if len(atoms) > 22:
+        raise AnalysisError("path condition too large to decide (%d atoms)" % len(atoms))
+    n = [0]
+
+    def search(term, a, rest):
+        n[0] += 1
+        if n[0] > (1 << 22):
+            raise AnalysisError("path condition enumeration budget exceeded")
+        term = _peval(term, a)
+        if term == FALSE:
+            return None
+        if term == TRUE:
+            return a
+        # pick first unassigned atom
+        for i, x in enumerate(rest):
+            for v in (True, False):
+                a2 = dict(a)
+                a2[x] = v
+                r = search(term, a2, rest[:i] + rest[i + 1:])
+                if r is not None:
+                    return r
+            return None
+        return a
+    w = search(cur, dict(asg), atoms)
+    return (w is None), w
+
+
 def implies(a, b, domain=None):
-    """a => b for all valuations of the opaque atoms (booleans/ints sampled, see equivalent)"""
+    """a => b, atoms treated as independent booleans (comparisons of the same operands against
+    different constants are related only syntactically; callers pass numeric facts separately)"""
     viol = and_(a, not_(b))
     if viol == FALSE:
         return True, None
-    ok, env, n = equivalent(ite(viol, Const(1), Const(0)), Const(0), domain=bool_domain(viol, domain))
-    return ok, env
+    u, w = unsat(viol)
+    if u:
+        return True, None
+    env = {k: v for k, v in (w or {}).items()}
+    return False, env
 
 
 def bool_domain(t, extra=None):
